@@ -1,81 +1,48 @@
-import Pyrtma.Proofs.Manager
+import Pyrtma.Proofs.ManagerStatsRun
 /-!
 # C18 — manager traffic statistics are exact
 
-Pure theorems about the counter (`ctrInc` = `Counter[t] += 1`), the TIMING payload (`timingEntries`) and the split of one
-MESSAGE_TRAFFIC interval into sub-messages (`chunks`, `trafficFrames`), for counters of every size.
+Per operation (pure theorems about the counter `ctrInc` = `Counter[t] += 1`, the TIMING payload `timingEntries` and the
+split of one MESSAGE_TRAFFIC interval into sub-messages `chunks` / `trafficFrames`, for counters of every size):
+`ctrInc_get`, `timing_exact`, `traffic_partition`, `traffic_empty`, `stats_not_counted`, `forward_counted`.
+
+Globally, for every history (`Proofs/ManagerStats.lean`; the ghost history `State.hist` records every frame `forward`
+handles and every report tick): `every_forward_counted` (each `forward` call marks its frame once and both counters move
+by exactly the marks made, at every depth of the nested recursion — a forward nested inside a removal inside a forward
+still counts its CLIENT_CLOSED / FAILED_MESSAGE / RTMA_LOG frame), `counts_exact_always` (after any history both counter
+tables *are* the tally of the frames handled outside a statistics send since the last report of their kind),
+`counts_exact_per_type`, `history_only_grows`.
+
+Link theorems, for every history (`Proofs/ManagerStatsSim.lean` and the other `Proofs/ManagerStats*.lean`: a simulation
+between the model state and the abstract state `Spec.round` computes from the model's own events of each round — clocks,
+who is alive, id / pid / connected / logger flag of every table entry, its subscriptions against the model's reverse
+index, the writable set, the tallies of client frames = the client marks of the ghost history since the last report, the
+per-observer tallies as lower bounds): `spec_timing_clause_passes_on_model` (every clause of `Spec.checkTiming`, u16 wrap
+included, and "no TIMING_MESSAGE before its period"), `spec_traffic_clause_passes_on_model` (every clause of
+`Spec.checkTraffic`, the subscribers that are owed a report included), `spec_round_adds_no_c18_error_on_model`, and the
+per-property corollary `spec_c18_clauses_pass_on_model_run`: `Spec.runSpec` on the driver's `modelRun` reports no C18 error,
+whatever the rounds.  `model_and_spec_state_agree` is the simulation itself.  Hypotheses (documented at the theorems, each
+with an `example` on a non-trivial history): `CfgOK`, `cfg.fuel = 0`, `MgrNotAll`, `OrderGood`, `RoundOK`,
+`0 < MESSAGE_TRAFFIC_SIZE`, "-1 is no manager type", `NoWrap`.
 -/
 namespace Pyrtma.C18
 open Pyrtma.Mgr
 
 /-- `Counter[t]` -/
-def ctrGet (c : List (Int × Nat)) (t : Int) : Nat :=
-  match c.find? (·.1 == t) with
-  | some p => p.2
-  | none => 0
+abbrev ctrGet (c : List (Int × Nat)) (t : Int) : Nat := ctrVal c t
 
-def keys (c : List (Int × Nat)) : List Int := c.map (·.1)
+abbrev keys (c : List (Int × Nat)) : List Int := ctrKeys c
 
 theorem ctrInc_keys (c : List (Int × Nat)) (t : Int) :
-    keys (ctrInc c t) = if t ∈ keys c then keys c else keys c ++ [t] := by
-  unfold ctrInc keys
-  by_cases h : c.any (·.1 == t) = true
-  · have hm : t ∈ c.map (·.1) := by
-      simp only [List.any_eq_true, beq_iff_eq] at h
-      obtain ⟨p, hp, rfl⟩ := h; exact List.mem_map.mpr ⟨p, hp, rfl⟩
-    simp only [h, if_true, hm]
-    rw [List.map_map]; congr 1; funext p; simp only [Function.comp]; split <;> rfl
-  · have hm : t ∉ c.map (·.1) := by
-      intro hm; apply h
-      obtain ⟨p, hp, rfl⟩ := List.mem_map.mp hm
-      exact List.any_eq_true.mpr ⟨p, hp, by simp⟩
-    simp [h, hm]
+    keys (ctrInc c t) = if t ∈ keys c then keys c else keys c ++ [t] := ctrKeys_inc c t
 
 /-- every type appears at most once in the counter -/
-theorem ctrInc_nodup (c : List (Int × Nat)) (t : Int) (h : (keys c).Nodup) : (keys (ctrInc c t)).Nodup := by
-  rw [ctrInc_keys]; split
-  · exact h
-  · rename_i hn; exact List.nodup_append.mpr ⟨h, by simp, by intro a ha b hb; simp at hb; subst hb; exact fun e => hn (e ▸ ha)⟩
-
-theorem find_map_key (c : List (Int × Nat)) (g : Int × Nat → Int × Nat) (hk : ∀ p, (g p).1 = p.1) (t' : Int) :
-    (c.map g).find? (·.1 == t') = (c.find? (·.1 == t')).map g := by
-  induction c with
-  | nil => rfl
-  | cons p c ih =>
-    simp only [List.map_cons, List.find?_cons, hk]
-    cases (p.1 == t') <;> simp [ih]
+theorem ctrInc_nodup (c : List (Int × Nat)) (t : Int) (h : (keys c).Nodup) : (keys (ctrInc c t)).Nodup :=
+  ctrKeys_nodup_inc c t h
 
 /-- **Each handled message counts exactly once, against its own type** -/
 theorem ctrInc_get (c : List (Int × Nat)) (t t' : Int) :
-    ctrGet (ctrInc c t) t' = ctrGet c t' + (if t' = t then 1 else 0) := by
-  unfold ctrInc ctrGet
-  by_cases h : c.any (·.1 == t) = true
-  · simp only [h, if_true]
-    rw [find_map_key c _ (by intro p; split <;> rfl) t']
-    cases hf : c.find? (·.1 == t') with
-    | none =>
-      have : t' ≠ t := by
-        intro e; subst e
-        rw [List.find?_eq_none] at hf
-        simp only [List.any_eq_true] at h
-        obtain ⟨p, hp, hpt⟩ := h; exact hf p hp hpt
-      simp [this]
-    | some p =>
-      have hp : p.1 = t' := by simpa using List.find?_some hf
-      simp only [Option.map_some]
-      by_cases ht : t' = t
-      · subst ht; simp [hp]
-      · have : (p.1 == t) = false := by simp; rw [hp]; exact ht
-        simp [this, ht]
-  · have hf : c.any (·.1 == t) = false := Bool.eq_false_iff.mpr h
-    simp only [hf, Bool.false_eq_true, if_false, List.find?_append]
-    by_cases ht : t' = t
-    · subst ht
-      have : c.find? (·.1 == t') = none := by
-        rw [List.find?_eq_none]; intro p hp; have := List.any_eq_false.mp hf p hp; simpa using this
-      simp [this]
-    · have : ((t == t') = false) := by simp; exact fun e => ht e.symm
-      cases hc : c.find? (·.1 == t') <;> simp [this, ht]
+    ctrGet (ctrInc c t) t' = ctrGet c t' + (if t' = t then 1 else 0) := ctrVal_inc c t t'
 
 /-! ## TIMING_MESSAGE -/
 
@@ -83,92 +50,9 @@ theorem ctrInc_get (c : List (Int × Nat)) (t t' : Int) :
 a type out of range: in particular a negative type id is never attributed to `MAX_MESSAGE_TYPES + id`. -/
 theorem timing_exact (cfg : Cfg) (c : List (Int × Nat)) (hn : (keys c).Nodup) (t : Int) :
     ctrGet (timingEntries cfg c) t =
-      if 0 ≤ t ∧ t < cfg.maxTypes then u16 (ctrGet c t) else 0 := by
-  unfold timingEntries ctrGet
-  induction c with
-  | nil => simp [u16]
-  | cons p c ih =>
-    have hn' : (keys c).Nodup := by unfold keys at *; simp at hn; exact hn.2
-    have hnot : ∀ q ∈ c, q.1 ≠ p.1 := by
-      intro q hq e; unfold keys at hn; simp at hn; exact hn.1 q.2 (by rw [← e]; exact hq)
-    have ih := ih hn'
-    simp only [List.filter_cons, List.find?_cons]
-    by_cases hr : (decide (0 ≤ p.1) && decide (p.1 < cfg.maxTypes)) = true
-    · simp only [hr, if_true, List.map_cons, List.filter_cons]
-      by_cases hz : (u16 p.2 != 0) = true
-      · simp only [hz, if_true, List.find?_cons]
-        by_cases hpt : p.1 = t
-        · subst hpt
-          have hr' : 0 ≤ p.1 ∧ p.1 < cfg.maxTypes := by simpa using hr
-          simp [hr']
-        · have hpt' : (p.1 == t) = false := by simpa using hpt
-          simp only [hpt']; exact ih
-      · have hz' : (u16 p.2 != 0) = false := by simpa using hz
-        simp only [hz', Bool.false_eq_true, if_false]
-        by_cases hpt : p.1 = t
-        · subst hpt
-          have hr' : 0 ≤ p.1 ∧ p.1 < cfg.maxTypes := by simpa using hr
-          have hnone : c.find? (·.1 == p.1) = none := by
-            rw [List.find?_eq_none]; intro q hq; simpa using hnot q hq
-          have e0 : u16 0 = 0 := rfl
-          have hz'' : u16 p.2 = 0 := by simpa using hz'
-          rw [ih]; simp [hr', hnone, hz'', e0]
-        · have hpt' : (p.1 == t) = false := by simpa using hpt
-          simp only [hpt']; exact ih
-    · have hr' : (decide (0 ≤ p.1) && decide (p.1 < cfg.maxTypes)) = false := by simpa using hr
-      simp only [hr', Bool.false_eq_true, if_false]
-      by_cases hpt : p.1 = t
-      · subst hpt
-        have hnone : c.find? (·.1 == p.1) = none := by
-          rw [List.find?_eq_none]; intro q hq; simpa using hnot q hq
-        have hrr : ¬(0 ≤ p.1 ∧ p.1 < cfg.maxTypes) := by simpa using hr'
-        rw [ih]; simp [hrr]
-      · have hpt' : (p.1 == t) = false := by simpa using hpt
-        simp only [hpt']; exact ih
+      if 0 ≤ t ∧ t < cfg.maxTypes then u16 (ctrGet c t) else 0 := timingEntries_val cfg c hn t
 
 /-! ## MESSAGE_TRAFFIC: the split into sub-messages -/
-
-theorem chunks_flatten (n : Nat) (hn : 0 < n) : ∀ (fuel : Nat) (l : List (Int × Nat)), l.length < fuel →
-    (chunks n l fuel).flatten = l
-  | 0, l, h => by omega
-  | fuel + 1, l, h => by
-    unfold chunks
-    split
-    · split <;> simp_all
-    · rename_i hc
-      have hlen : n < l.length := by omega
-      rw [List.flatten_cons, chunks_flatten n hn fuel (l.drop n) (by simp; omega), List.take_append_drop]
-
-/-- every sub-message carries between 1 and `MESSAGE_TRAFFIC_SIZE` real entries; all but the last are full -/
-theorem chunks_sizes (n : Nat) (hn : 0 < n) : ∀ (fuel : Nat) (l : List (Int × Nat)) (c : List (Int × Nat)),
-    c ∈ chunks n l fuel → 0 < c.length ∧ c.length ≤ n
-  | 0, l, c, h => by simp [chunks] at h
-  | fuel + 1, l, c, h => by
-    unfold chunks at h
-    split at h
-    · rename_i hc
-      split at h
-      · simp at h
-      · rename_i he
-        simp at h; subst h
-        have : c ≠ [] := by simpa using he
-        exact ⟨List.length_pos_iff.mpr this, by omega⟩
-    · rename_i hc
-      simp only [List.mem_cons] at h
-      rcases h with rfl | h
-      · simp; omega
-      · exact chunks_sizes n hn fuel _ c h
-
-theorem enumFrom1_fst : ∀ (i : Nat) (l : List (List (Int × Nat))),
-    (enumFrom1 i l).map (·.1) = (List.range l.length).map (· + i)
-  | i, [] => rfl
-  | i, c :: r => by
-    simp only [enumFrom1, List.map_cons, List.length_cons, List.range_succ_eq_map, List.map_map, enumFrom1_fst (i + 1) r]
-    simp; intro a _; omega
-
-theorem enumFrom1_snd : ∀ (i : Nat) (l : List (List (Int × Nat))), (enumFrom1 i l).map (·.2) = l
-  | _, [] => rfl
-  | i, c :: r => by simp [enumFrom1, enumFrom1_snd (i + 1) r]
 
 /-- the real (non-filler) entries of one sub-message -/
 def realEntries (b : Body) (len : Nat) : List (Int × Nat) :=
@@ -213,6 +97,214 @@ theorem forward_counted (cfg : Cfg) (s : State) (t t' : Int) (h : s.inTraffic = 
     (cfg.timing = true → ctrGet (countMsg cfg s t).counts t' = ctrGet s.counts t' + (if t' = t then 1 else 0)) := by
   unfold countMsg; simp only [h, Bool.false_eq_true, if_false]
   exact ⟨ctrInc_get _ _ _, fun ht => by simp only [ht, if_true]; exact ctrInc_get _ _ _⟩
+
+/-! ## Globally: the counters against the history of handled frames, for every history
+
+`State.hist` is a ghost history the model never reads (newest mark first): `forward` — the model of `forward_message` —
+pushes `Mark.fwd t stats` for every frame it handles (`t` its type, `stats` = "inside a statistics send"), at every
+depth of the recursion `forward → remove_module → send_client_close → forward`, `… → send_failed_message → forward`,
+`… → logger.error → forward`; a report pushes `Mark.timingTick` / `Mark.trafficTick` when it is out.
+`sinceTick tick hist` are the marks after the last `tick`; `handled e t` counts the marks `fwd t false` in `e`;
+`tallyOn [] e` is the counter table obtained by `Counter[t] += 1` for these marks, oldest first. -/
+
+/-- **Every frame is marked exactly once by the `forward` that handles it, and everything nested in it is counted.**
+For any fuel `n`, state and frame: the marks `forward` leaves are, oldest first, the frame's own (unless it is out of fuel
+or the manager has crashed: then nothing happens at all) and then those of the CLIENT_CLOSED / FAILED_MESSAGE / RTMA_LOG
+frames forwarded inside it at any depth (`e'`); all carry the statistics flag of the moment; and *both counters moved by
+exactly these marks* (`AccE.traffic`, `AccE.counts`: `+= 1` per mark outside a statistics send, nothing inside one), the
+clocks, the interval number and the statistics flag are unchanged. -/
+theorem every_forward_counted (cfg : Cfg) (n : Nat) (s : State) (g : Frame) :
+    ∃ e', Marks (nestedType cfg) s.inTraffic e' ∧
+      AccE cfg (fun _ => true) s (forward cfg n s g)
+        (e' ++ (if n = 0 ∨ s.crashed.isSome = true then [] else [.fwd g.mtype s.inTraffic])) :=
+  forward_accE cfg n s g
+
+/-- **Global counting theorem.**  After any history `rs` — any frames, readiness sets, socket failures, removals nested
+in deliveries nested in removals, log level, clock — the manager is outside the statistics context, `traffic_counter` is
+*exactly* the tally of the frames `forward_message` handled outside a statistics send since the last MESSAGE_TRAFFIC
+report, and `message_counts` that of those since the last TIMING_MESSAGE (empty when TIMING is off): equal as tables —
+same types, same counts, same (insertion) order. -/
+theorem counts_exact_always (cfg : Cfg) (rs : List Round) :
+    (run cfg rs).inTraffic = false ∧
+    (run cfg rs).traffic = tallyOn [] (sinceTick .trafficTick (run cfg rs).hist) ∧
+    (run cfg rs).counts = (if cfg.timing then tallyOn [] (sinceTick .timingTick (run cfg rs).hist) else []) :=
+  ⟨(run_statInv cfg rs).idle, (run_statInv cfg rs).traffic, (run_statInv cfg rs).counts⟩
+
+/-- …read per type: the traffic counter of type `t` is the number of `forward` calls for frames of type `t` made outside a
+statistics send since the start of the traffic interval, the TIMING counter (when on) the number since the last TIMING
+tick; each type is listed at most once, and a type is listed iff at least one such frame was handled (no count is
+attributed to a type that was not seen). -/
+theorem counts_exact_per_type (cfg : Cfg) (rs : List Round) (t : Int) :
+    ctrGet (run cfg rs).traffic t = handled (sinceTick .trafficTick (run cfg rs).hist) t ∧
+    (cfg.timing = true → ctrGet (run cfg rs).counts t = handled (sinceTick .timingTick (run cfg rs).hist) t) ∧
+    (keys (run cfg rs).traffic).Nodup ∧ (keys (run cfg rs).counts).Nodup ∧
+    (t ∈ keys (run cfg rs).traffic ↔ 0 < handled (sinceTick .trafficTick (run cfg rs).hist) t) ∧
+    (cfg.timing = true → (t ∈ keys (run cfg rs).counts ↔ 0 < handled (sinceTick .timingTick (run cfg rs).hist) t)) := by
+  obtain ⟨_, h1, h2⟩ := counts_exact_always cfg rs
+  have e0 : ∀ e, ctrVal (tallyOn [] e) t = handled e t := fun e => by rw [ctrVal_tallyOn]; simp [ctrVal]
+  have n0 : ∀ e, (ctrKeys (tallyOn [] e)).Nodup := fun e => tallyOn_nodup [] e (by simp [ctrKeys])
+  have p0 : ∀ e, CtrPos (tallyOn [] e) := fun e => tallyOn_pos [] e (fun _ h => by cases h)
+  refine ⟨by rw [h1]; exact e0 _, fun ht => by rw [h2]; simp only [ht, if_true]; exact e0 _, by rw [h1]; exact n0 _, ?_,
+    by rw [h1, ctrVal_pos_iff (p0 _), e0], fun ht => by rw [h2]; simp only [ht, if_true]; rw [ctrVal_pos_iff (p0 _), e0]⟩
+  rw [h2]; split
+  · exact n0 _
+  · simp [ctrKeys]
+
+/-- **The history is monotone**: one more round only adds marks in front of those made so far. -/
+theorem history_only_grows (cfg : Cfg) (rs : List Round) (r : Round) :
+    ∃ e, (run cfg (rs ++ [r])).hist = e ++ (run cfg rs).hist := by
+  unfold run; rw [List.foldl_append]; exact hist_suffix_step cfg _ r
+
+/-! ### Non-vacuity: a failed write inside a delivery — the CLIENT_CLOSED (33) and the FAILED_MESSAGE (8) forwarded inside
+the removal that is nested in the forward of frame 7 (type 5000) are counted; the TIMING report itself (80) is not -/
+def exSub (u k lo hi : Nat) : Read := { uid := u, h := { k := k, mtype := 15, nbytes := 4 }, avail := 4, pay := [lo, hi, 0, 0] }
+def exConn (u k : Nat) (id : Int) : Read := { uid := u, h := { k := k, mtype := 13, src := id } }
+def exHist : List Round :=
+  [{ accept := true }, { accept := true }, { accept := true },
+   { reads := [exConn 1 1 10, exConn 2 2 11, exConn 3 3 12], writable := [1, 2, 3] },
+   { reads := [exSub 1 4 136 19, exSub 2 5 33 0, exSub 3 6 8 0], writable := [1, 2, 3] },
+   { failSet := [(1, some .hdr)], reads := [{ uid := 2, h := { k := 7, mtype := 5000 } }], writable := [1, 2, 3] }]
+example : (run {} exHist).hist = [.fwd 8 false, .fwd 33 false, .fwd 5000 false, .fwd 32 false, .fwd 32 false, .fwd 32 false] ∧
+    (run {} exHist).traffic = [(32, 3), (5000, 1), (33, 1), (8, 1)] ∧ (run {} exHist).counts = [(32, 3), (5000, 1), (33, 1), (8, 1)] := by
+  decide
+example : (run {} (exHist ++ [{ dt := 950 }])).hist =
+      [.timingTick, .fwd 80 true, .fwd 8 false, .fwd 33 false, .fwd 5000 false, .fwd 32 false, .fwd 32 false, .fwd 32 false] ∧
+    (run {} (exHist ++ [{ dt := 950 }])).counts = [] ∧
+    (run {} (exHist ++ [{ dt := 950 }])).traffic = [(32, 3), (5000, 1), (33, 1), (8, 1)] := by
+  decide
+example : handled (sinceTick .trafficTick (run {} exHist).hist) 33 = 1 ∧ handled (sinceTick .timingTick (run {} (exHist ++ [{ dt := 950 }])).hist) 33 = 0 := by
+  decide
+
+/-! ## Link theorems: the Spec's C18 clauses on the model's own run, for every history
+
+`mrPair cfg rs = (x, a)`: the model state after the rounds `rs`, played the way the driver's `modelRun` plays them (the
+event log starts afresh every round), and the abstract state `Spec.round` has computed from the model's own events of
+these rounds.  `stepR cfg x r` is the next round of the model, `Spec.roundPre cfg a r evs` the abstract state just before
+the periodic section of `Spec.round` (everything up to `Spec.tail`), `Spec.lastEvs evs` the last stretch of the round's
+events, in which `Spec.tail` looks for the reports (`Spec.round_eq`, `Spec.tail_parts`: `round = tail ∘ roundPre`, and
+`tail` is `timingPart`, the TIMING reset, `trafficPart`, the TRAFFIC reset, the INFO clock — provably equal pieces).
+
+Hypotheses, all satisfied by every case the generator produces (examples below): `CfgOK cfg`, `cfg.fuel = 0` (as for
+`model_never_crashes`), `MgrNotAll cfg` (no manager type is the ALL sentinel), `OrderGood cfg` (the iteration order of a
+subscriber set is a permutation of it), `RoundOK r` (no frame is "read from" the manager's own table entry, uid 0),
+`NoWrap` (fewer than 65536 manager-originated frames of one type in the whole history: the Spec's lower-bound clause
+presupposes it; *client* counters may wrap, the clause `counts` below is proved modulo 2¹⁶). -/
+
+/-- **TIMING link theorem.**  After any history `rs`, in the next round `r`, the TIMING clause of `Spec.tail` — when the
+period has elapsed: for every TIMING_MESSAGE in the round's last stretch, (1) every client type the Spec tallied is
+reported with exactly its tally modulo 2¹⁶, (2) no client type is reported that was not tallied, (3) for every observer
+and manager type the reported count is at least what that observer alone received, (4) every live connected module with
+a non-zero id held by it alone is reported with its pid; otherwise: no TIMING_MESSAGE at all — adds **no error** on the
+model's own events: the abstract state passes through unchanged. -/
+theorem spec_timing_clause_passes_on_model (cfg : Cfg) (ok : CfgOK cfg) (hfuel : cfg.fuel = 0) (hna : MgrNotAll cfg)
+    (hord : OrderGood cfg) (rs : List Round) (r : Round) (hrs : ∀ r' ∈ rs, RoundOK r') (hr : RoundOK r)
+    (hnw : NoWrap cfg (stepR cfg (mrPair cfg rs).1 r).hist) :
+    Spec.timingPart cfg (Spec.roundPre cfg (mrPair cfg rs).2 r (stepR cfg (mrPair cfg rs).1 r).out)
+        (Spec.lastEvs (stepR cfg (mrPair cfg rs).1 r).out) =
+      Spec.roundPre cfg (mrPair cfg rs).2 r (stepR cfg (mrPair cfg rs).1 r).out :=
+  timing_round ok hfuel (rinv_all ok hfuel hna hord rs hrs) hna hord r hr hnw
+
+/-- **TRAFFIC link theorem.**  After any history `rs`, in the next round `r`, the MESSAGE_TRAFFIC clause of `Spec.tail` (it
+runs on the abstract state after the TIMING clause and its reset) — when the period has elapsed: (0) if a client type
+was tallied in the interval, every live subscriber of MESSAGE_TRAFFIC that is writable or a logger, not failing and not
+closed in the stretch got a report; and for every connection that got MESSAGE_TRAFFIC frames in the round's last stretch:
+(1) the sub-sequence numbers are 1, 2, …, (2) all carry the current interval number, (3) all have exactly
+`MESSAGE_TRAFFIC_SIZE` slots, (4) no type is reported twice, (5) every client type the Spec tallied is reported with its
+tally modulo 2¹⁶, (6) no client type is reported that was not tallied, (7) for every manager type the reported count is at
+least what that observer alone received — adds **no error** on the model's own events.  `0 < MESSAGE_TRAFFIC_SIZE` and "-1
+(the filler) is no manager type" hold of every configuration (examples below). -/
+theorem spec_traffic_clause_passes_on_model (cfg : Cfg) (ok : CfgOK cfg) (hfuel : cfg.fuel = 0) (hna : MgrNotAll cfg)
+    (hord : OrderGood cfg) (hsz : 0 < cfg.trafficSize) (hneg : mgrType cfg (-1) = false)
+    (rs : List Round) (r : Round) (hrs : ∀ r' ∈ rs, RoundOK r') (hr : RoundOK r)
+    (hnw : NoWrap cfg (stepR cfg (mrPair cfg rs).1 r).hist) :
+    let a7 := Spec.roundPre cfg (mrPair cfg rs).2 r (stepR cfg (mrPair cfg rs).1 r).out
+    Spec.trafficPart cfg (Spec.timingReset cfg a7 a7) (Spec.lastEvs (stepR cfg (mrPair cfg rs).1 r).out) =
+      Spec.timingReset cfg a7 a7 :=
+  traffic_round ok hfuel (rinv_all ok hfuel hna hord rs hrs) hna hord hsz hneg r hr hnw _ rfl
+
+/-- **One round of the Spec adds no C18 error** on the model's own events of that round, after any history: the two link
+theorems put together along `Spec.round = Spec.tail ∘ Spec.roundPre` (no other clause of `Spec.round` files under C18). -/
+theorem spec_round_adds_no_c18_error_on_model (cfg : Cfg) (ok : CfgOK cfg) (hfuel : cfg.fuel = 0) (hna : MgrNotAll cfg)
+    (hord : OrderGood cfg) (hsz : 0 < cfg.trafficSize) (hneg : mgrType cfg (-1) = false)
+    (rs : List Round) (r : Round) (hrs : ∀ r' ∈ rs, RoundOK r') (hr : RoundOK r)
+    (hnw : NoWrap cfg (stepR cfg (mrPair cfg rs).1 r).hist) :
+    (Spec.round cfg (mrPair cfg rs).2 r (stepR cfg (mrPair cfg rs).1 r).out).errs.filter (·.1 == "C18") =
+      (mrPair cfg rs).2.errs.filter (·.1 == "C18") :=
+  round_e18 ok hfuel (rinv_all ok hfuel hna hord rs hrs) hna hord hsz hneg r hr hnw
+
+/-- **The model passes the Spec's C18 clauses, for every history.**  The Spec, run the way `./check` runs it
+(`Spec.runSpec` on the per-round event logs the driver's `modelRun` produces, no crash), reports **no C18 error**, whatever
+the rounds — every TIMING and every MESSAGE_TRAFFIC clause, in every round, u16 wrap of client counters included.
+`NoWrap` of the final ghost history: fewer than 65536 manager-originated frames of any one manager type in the whole run
+(the Spec's lower-bound clause for manager types presupposes it; every generated case is far below). -/
+theorem spec_c18_clauses_pass_on_model_run (cfg : Cfg) (ok : CfgOK cfg) (hfuel : cfg.fuel = 0) (hna : MgrNotAll cfg)
+    (hord : OrderGood cfg) (hsz : 0 < cfg.trafficSize) (hneg : mgrType cfg (-1) = false)
+    (rs : List Round) (hrs : ∀ r ∈ rs, RoundOK r)
+    (hnw : NoWrap cfg (Pyrtma.Drv.Manager.modelRun cfg rs).2.hist) :
+    (Spec.runSpec cfg rs (Pyrtma.Drv.Manager.modelRun cfg rs).1 none).errs.filter (·.1 == "C18") = [] :=
+  runSpec_e18 ok hfuel hna hord hsz hneg rs hrs (by rw [← modelRun_state]; exact hnw)
+
+/-- the simulation behind the link theorems: after any history the Spec's abstract state agrees with the model state on
+the clocks, on who is alive, on id / pid / connected flag of every table entry, its tallies of client frames are exactly
+the client marks of the ghost history since the last report, and its per-observer tallies are lower bounds -/
+theorem model_and_spec_state_agree (cfg : Cfg) (ok : CfgOK cfg) (hfuel : cfg.fuel = 0) (hna : MgrNotAll cfg)
+    (hord : OrderGood cfg) (rs : List Round) (hrs : ∀ r' ∈ rs, RoundOK r') :
+    RInv cfg (mrPair cfg rs).1 (mrPair cfg rs).2 := rinv_all ok hfuel hna hord rs hrs
+
+/-! ### Non-vacuity of the link theorems: the default configuration meets the hypotheses; in the last round of the
+history below the TIMING period has elapsed, module 3 (subscribed to TIMING_MESSAGE, type 80) gets the report and the
+Spec has tallied client type 5000 -/
+theorem cfgOK_default : CfgOK {} := ⟨by decide, by decide, by decide, fun _ _ h => h⟩
+example : MgrNotAll {} := by
+  intro t ht e
+  subst e
+  revert ht; decide
+example : OrderGood {} := fun l hl => ⟨hl, fun _ => Iff.rfl⟩
+def exHist2 : List Round :=
+  [{ accept := true }, { accept := true }, { accept := true },
+   { reads := [exConn 1 1 10, exConn 2 2 11, exConn 3 3 12], writable := [1, 2, 3] },
+   { reads := [exSub 1 4 136 19, exSub 2 5 33 0, exSub 3 6 80 0], writable := [1, 2, 3] },
+   { failSet := [(1, some .hdr)], reads := [{ uid := 2, h := { k := 7, mtype := 5000 } }], writable := [1, 2, 3] }]
+def exLast : Round := { dt := 950, writable := [1, 2, 3], reads := [{ uid := 2, h := { k := 8, mtype := 5000 } }] }
+example : (∀ r ∈ exHist2, RoundOK r) ∧ RoundOK exLast := by decide
+example : NoWrap {} (stepR {} (mrPair {} exHist2).1 exLast).hist := by
+  intro t _
+  have : (stepR {} (mrPair {} exHist2).1 exLast).hist.length = 9 := by decide
+  exact Nat.lt_of_le_of_lt List.count_le_length (by omega)
+example : (Spec.sends (Spec.lastEvs (stepR {} (mrPair {} exHist2).1 exLast).out)).map (fun p => (p.1, p.2.2.mtype)) = [(3, 80)] ∧
+    (Spec.roundPre {} (mrPair {} exHist2).2 exLast (stepR {} (mrPair {} exHist2).1 exLast).out).pubT = [(5000, 2)] := by
+  decide +kernel
+
+/-! ### Non-vacuity of the TRAFFIC link theorem and of the whole-run theorem: in the history below module 3 subscribes to
+MESSAGE_TRAFFIC (type 30); in the last round both periods have elapsed, the Spec has tallied client type 5000 twice,
+considers module 3 owed the report, and module 3 gets it (one sub-message, interval number 1) -/
+example : 0 < ({} : Cfg).trafficSize ∧ mgrType {} (-1) = false := by decide
+def exHist3 : List Round :=
+  [{ accept := true }, { accept := true }, { accept := true },
+   { reads := [exConn 1 1 10, exConn 2 2 11, exConn 3 3 12], writable := [1, 2, 3] },
+   { reads := [exSub 1 4 136 19, exSub 2 5 33 0, exSub 3 6 30 0], writable := [1, 2, 3] },
+   { failSet := [(1, some .hdr)], reads := [{ uid := 2, h := { k := 7, mtype := 5000 } }], writable := [1, 2, 3] }]
+def exLastR : Round := { dt := 1100, writable := [1, 2, 3], reads := [{ uid := 2, h := { k := 8, mtype := 5000 } }] }
+example : (∀ r ∈ exHist3, RoundOK r) ∧ RoundOK exLastR := by decide
+example : NoWrap {} (stepR {} (mrPair {} exHist3).1 exLastR).hist := by
+  intro t _
+  have : (stepR {} (mrPair {} exHist3).1 exLastR).hist.length = 11 := by decide
+  exact Nat.lt_of_le_of_lt List.count_le_length (by omega)
+example :
+    let a7 := Spec.roundPre {} (mrPair {} exHist3).2 exLastR (stepR {} (mrPair {} exHist3).1 exLastR).out
+    let a9 := Spec.timingReset {} a7 a7
+    let evs := Spec.lastEvs (stepR {} (mrPair {} exHist3).1 exLastR).out
+    a9.now - a9.tTraffic > 1000 ∧ a9.pubR = [(5000, 2)] ∧ (owedOf {} a9 evs).map (·.uid) = [3] ∧
+    (trOf evs).map (fun row => (row.1, row.2.1, row.2.2.1)) = [(3, 1, 1)] := by
+  decide +kernel
+/-- the whole run of that history contains the report, and the hypotheses of `spec_c18_clauses_pass_on_model_run` hold -/
+example : (∀ r ∈ exHist3 ++ [exLastR], RoundOK r) ∧
+    ((Pyrtma.Drv.Manager.modelRun {} (exHist3 ++ [exLastR])).1.map (fun evs => (trOf evs).length)) = [0, 0, 0, 0, 0, 0, 0, 1] := by
+  decide +kernel
+example : NoWrap {} (Pyrtma.Drv.Manager.modelRun {} (exHist3 ++ [exLastR])).2.hist := by
+  intro t _
+  have : (Pyrtma.Drv.Manager.modelRun {} (exHist3 ++ [exLastR])).2.hist.length = 11 := by decide +kernel
+  exact Nat.lt_of_le_of_lt List.count_le_length (by omega)
 
 /-! ### Non-vacuity: with 4 slots per sub-message, 10 distinct types make three sub-messages of 4, 4 and 2 entries -/
 def exCfg : Cfg := { trafficSize := 4 }
